@@ -7,6 +7,7 @@ one missing/extra key), chains of 4 and 8 over a reduced alphabet, on the real
 merge_results; evo_res --save_table over 1..3 result files x use_filenames x
 merge, through the real parser and run().
 """
+import copy
 import csv
 import itertools
 import os
@@ -203,14 +204,13 @@ def _make_result_files(workdir):
                          ref_name="ref", est_name="dir%d/est_%d.tum" %
                          (k, k if k < 2 else 0))
         path = os.path.join(workdir, "res%d.zip" % k)
-        file_interface.save_res_file(path, r)
+        file_interface.save_res_file(path, copy.deepcopy(r))
         files.append((path, r))
     # unusual but valid inputs:
     #  3: a file name with glob metacharacters next to a sibling it would
     #     match as a pattern ("res[1].zip" vs "res1.zip")
     #  4: a stored statistic that is NaN
     #  5: a different set of statistics (no median, an extra percentile)
-    import copy
     for k, (fname, edit) in enumerate((
             ("res[1].zip", lambda st: None),
             ("res4.zip", lambda st: st.__setitem__("max", float("nan"))),
@@ -222,7 +222,9 @@ def _make_result_files(workdir):
             r.stats[name] = r.stats[name] + 0.001 * k
         edit(r.stats)
         path = os.path.join(workdir, fname)
-        file_interface.save_res_file(path, r)
+        # (the expectation keeps its own object: a writer that edits its
+        # argument is C16's subject, not this check's)
+        file_interface.save_res_file(path, copy.deepcopy(r))
         files.append((path, r))
     return files
 
@@ -232,6 +234,8 @@ def _cell(x):
 
 
 def _same(a, b):
+    if a is None or b is None:
+        return a is b
     return (a != a and b != b) or abs(a - b) <= 1e-12 * max(1.0, abs(b))
 
 
